@@ -621,10 +621,13 @@ def to_uid(s):
         return 0
     if hasattr(s, "value"):
         s = s.value
-    try:
-        return int(s)
-    except (TypeError, ValueError):
-        return -1
+    if isinstance(s, int):
+        return s
+    # an identifier is the decimal rendering of the store's integer key; any other text ('01', ' 1', '1.0') names no object
+    t = str(s)
+    if t.isdigit() and str(int(t)) == t:
+        return int(t)
+    return -1
 
 
 def abs_payload(op, pl, intern):
